@@ -141,6 +141,25 @@ def pump_inputs(rng, thorough):
     return out
 
 
+EXPR_ALPHABET = ['1', 'x', '+', '*', '^', 'and', 'not', '-', '(', ')', '==', '%']
+
+
+def expr_inputs(rng, thorough):
+    """every sequence of up to 3 (thorough: 4) tokens over the operator alphabet between braces,
+    plus seeded longer ones: the expression parser must finish on each (accept, or reject with a
+    message) — compiled in the child process because an endless loop cannot be interrupted"""
+    import itertools
+    out = []
+    for k in range(1, (4 if thorough else 3) + 1):
+        for seq in itertools.product(EXPR_ALPHABET, repeat=k):
+            out.append('assign x 1 assign y {' + ' '.join(seq) + '}')
+    for _ in range(20000 if thorough else 3500):
+        seq = [rng.choice(EXPR_ALPHABET) for _ in range(rng.randint(4, 7))]
+        pre = rng.choice(['assign y {', 'if {', 'repeat while {', 'print {', 'hue {'])
+        out.append('assign x 1 ' + pre + ' '.join(seq) + '}' + (' print 1' if pre.startswith(('if', 'repeat')) else ''))
+    return out
+
+
 def run_pumps(chk, texts, stats):
     """compile the pump inputs in a child process, one result line per text, under a deadline"""
     import json
@@ -548,7 +567,7 @@ def main():
                               'accepted, then: ' + ex_detail, {'text': text, 'classification': kind})
         else:
             chk.nontrivial_case(('a', text))
-    run_pumps(chk, pump_inputs(rng, chk.thorough), stats)
+    run_pumps(chk, pump_inputs(rng, chk.thorough) + expr_inputs(rng, chk.thorough), stats)
     # ---- tie: real parser vs the model ParseTok on the fixed texts and a seeded sample
     parse_text_tie(chk, fixed_texts + [(s, t) for s, t in inputs if not s.startswith('rule:')],
                    stats)
